@@ -9,6 +9,9 @@
 #include <cstdio>
 #include <cstdlib>
 #include <cstring>
+#include <deque>
+#include <iterator>
+#include <memory>
 #include <functional>
 #include <map>
 #include <string>
@@ -127,6 +130,93 @@ static void run_one(const char* fam, int kind, int n, const T* in, C c, const ch
     }
 }
 
+
+// ---- iterator kinds other than T*: the dispatcher and the direct entry points are templates over the iterator, so a
+// version that quietly assumes contiguous / forward memory (e.g. passes &*begin on) is wrong for these.
+#define DIRECT_IT(NS, N) case N: sn::NS::sort##N<It, sn::CS_IfSwap<C>>(a, sn::CS_IfSwap<C>(c)); break;
+template <typename It, typename C>
+void direct_best_it(It a, int n, C c) { switch (n) { ALLN(DIRECT_IT, best) default: break; } }
+template <typename It, typename C>
+void direct_bn_it(It a, int n, C c) { switch (n) { ALLN(DIRECT_IT, bose_nelson) default: break; } }
+
+template <typename It, typename C>
+static void call_it(int f, int kind, It b, int n, C c) {
+    if (kind == 0) { if (n < 2) return; if (f == 0) direct_best_it(b, n, c); else direct_bn_it(b, n, c); }
+    else if (f == 0) sn::best::sort(b, b + n, c);
+    else if (f == 1) sn::bose_nelson::sort(b, b + n, c);
+    else sn::bose_nelson_parameter::sort(b, b + n, c);
+}
+
+static void report_it(const char* what, int f, int kind, int n, const int* in, const int* out) {
+    static const char* fams[3] = { "best", "bn", "bnp" };
+    if (g_fail++ < 20) {
+        printf("FAIL fam=%s kind=%s n=%d cmp=%s", fams[f], kind ? "dispatch" : "direct", n, what);
+        print_vec("in", in, n); print_vec("out", out, n); printf("\n");
+    }
+}
+
+static void run_iterators(int n, const int* in) {
+    const int G = 777; // guard value around the range
+    int e[16]; std::copy(in, in + n, e); std::sort(e, e + n);
+    for (int f = 0; f < 3; ++f) for (int kind = 0; kind < 2; ++kind) {
+        if (kind == 0 && f == 2) continue; // bose_nelson_parameter direct takes references, no iterator involved
+        {   // std::reverse_iterator<int*>: position i of the range is buf[4 + n - 1 - i]
+            int buf[16 + 8]; std::fill(buf, buf + 24, G);
+            for (int i = 0; i < n; ++i) buf[4 + n - 1 - i] = in[i];
+            call_it(f, kind, std::reverse_iterator<int*>(buf + 4 + n), n, std::less<int>());
+            int out[16]; bool ok = true;
+            for (int i = 0; i < n; ++i) { out[i] = buf[4 + n - 1 - i]; if (out[i] != e[i]) ok = false; }
+            for (int i = 0; i < 24; ++i) if ((i < 4 || i >= 4 + n) && buf[i] != G) ok = false;
+            ++g_eval; if (!ok) report_it("less/reverse_iterator", f, kind, n, in, out);
+        }
+        {   // std::deque<int>::iterator over a range that straddles a block boundary (blocks hold 128 ints)
+            std::deque<int> d(static_cast<size_t>(120 + n + 10), G);
+            for (int i = 0; i < n; ++i) d[static_cast<size_t>(120 + i)] = in[i];
+            call_it(f, kind, d.begin() + 120, n, std::less<int>());
+            int out[16]; bool ok = true;
+            for (int i = 0; i < n; ++i) { out[i] = d[static_cast<size_t>(120 + i)]; if (out[i] != e[i]) ok = false; }
+            for (size_t i = 0; i < d.size(); ++i) if ((i < 120 || i >= static_cast<size_t>(120 + n)) && d[i] != G) ok = false;
+            ++g_eval; if (!ok) report_it("less/deque_iterator", f, kind, n, in, out);
+        }
+        {   // std::vector<int>::iterator in an exactly sized heap block
+            std::vector<int> v(in, in + n);
+            call_it(f, kind, v.begin(), n, std::less<int>());
+            bool ok = std::equal(v.begin(), v.end(), e);
+            ++g_eval; if (!ok) report_it("less/vector_iterator", f, kind, n, in, v.data());
+        }
+    }
+}
+
+// ---- a CS_IfSwap object that OUTLIVES the comparator it was built from (it must own a copy): built from a temporary
+// and from a by-value constructor argument, kept as a member / on the heap, used later for the direct entry points.
+struct SwapHolder {
+    sn::CS_IfSwap<RankCmp> cs;
+    explicit SwapHolder(RankCmp c) : cs(c) {}
+};
+#define DIRECT_CS(NS, N) case N: sn::NS::sort##N<int*, sn::CS_IfSwap<RankCmp>>(a, cs); break;
+static void direct_best_cs(int* a, int n, const sn::CS_IfSwap<RankCmp>& cs) { switch (n) { ALLN(DIRECT_CS, best) default: break; } }
+static void direct_bn_cs(int* a, int n, const sn::CS_IfSwap<RankCmp>& cs) { switch (n) { ALLN(DIRECT_CS, bose_nelson) default: break; } }
+#define BNP_CS_DEF(NS, N) template <size_t... I> \
+    void bnp_cs##N(int* a, const sn::CS_IfSwap<RankCmp>& cs, std::index_sequence<I...>) { \
+        sn::bose_nelson_parameter::sort##N<int, sn::CS_IfSwap<RankCmp>>(a[I]..., cs); }
+ALLN(BNP_CS_DEF, x)
+#define BNP_CS_CASE(NS, N) case N: bnp_cs##N(a, cs, std::make_index_sequence<N>()); break;
+static void direct_bnp_cs(int* a, int n, const sn::CS_IfSwap<RankCmp>& cs) { switch (n) { ALLN(BNP_CS_CASE, x) default: break; } }
+
+static void scribble_stack() { volatile char junk[4096]; for (int i = 0; i < 4096; ++i) junk[i] = static_cast<char>(0x5A); (void)junk[7]; }
+
+static void run_stored_cswap(int n, const int* in, const SwapHolder& member, const sn::CS_IfSwap<RankCmp>& heap) {
+    if (n < 2) return;
+    int e[16]; std::copy(in, in + n, e); std::sort(e, e + n);
+    for (int which = 0; which < 2; ++which) for (int f = 0; f < 3; ++f) {
+        const sn::CS_IfSwap<RankCmp>& cs = which ? heap : member.cs;
+        int a[16]; std::copy(in, in + n, a);
+        if (f == 0) direct_best_cs(a, n, cs); else if (f == 1) direct_bn_cs(a, n, cs); else direct_bnp_cs(a, n, cs);
+        ++g_eval;
+        if (!std::equal(a, a + n, e)) report_it(which ? "rank-table/stored-cswap-heap" : "rank-table/stored-cswap-member", f, 0, n, in, a);
+    }
+}
+
 // default-argument variants: ascending order of ints expected
 static void run_defaults(int n, const int* in) {
     static const char* fams[3] = { "best", "bn", "bnp" };
@@ -183,6 +273,21 @@ int main(int argc, char** argv) {
             for (uint32_t mask = 0; mask < total; mask += stride) {
                 int a[16]; for (int i = 0; i < n; ++i) a[i] = (mask >> i) & 1;
                 run_all_entry(n, a, rc, "rank-table");
+            }
+        }
+    }
+    // (1c) iterator kinds (reverse_iterator, deque across a block boundary, vector) and CS_IfSwap objects that outlive
+    // the comparator they were built from: every 0/1 input up to n = 16 (thorough) / 10 (quick) + samples beyond
+    {
+        std::unique_ptr<SwapHolder> member(new SwapHolder(RankCmp(2)));
+        std::unique_ptr<sn::CS_IfSwap<RankCmp>> heap(new sn::CS_IfSwap<RankCmp>(RankCmp(2)));
+        scribble_stack();
+        for (int n = 0; n <= 16; ++n) {
+            uint32_t total = 1u << n, stride = (thorough || n <= 10) ? 1 : 53;
+            for (uint32_t mask = 0; mask < total; mask += stride) {
+                int a[16]; for (int i = 0; i < n; ++i) a[i] = (mask >> i) & 1;
+                run_iterators(n, a);
+                run_stored_cswap(n, a, *member, *heap);
             }
         }
     }
